@@ -7,6 +7,7 @@ import (
 	"bytes"
 	"encoding/json"
 	"fmt"
+	"sort"
 
 	"github.com/Tom-Johnston/mamba/graph"
 	"github.com/Tom-Johnston/mamba/graph/search"
@@ -21,6 +22,7 @@ type saveCase struct {
 	K     int    `json:"save_after_k_graphs"` // T+1 = after exhaustion was reported
 	J     int    `json:"then_advance_j,omitempty"`
 	Chain bool   `json:"chain,omitempty"`
+	Early *int   `json:"earlier_discarded_save_after,omitempty"` // a Save taken (and thrown away) at this earlier position
 }
 
 func (sc saveCase) cfg() searchCfg { return searchCfg{N: sc.N, M: sc.M, Pred: sc.Pred, Place: sc.Place} }
@@ -40,6 +42,9 @@ func loadIter(sc saveCase, data []byte) *search.GraphIterator {
 }
 
 func drain(it *search.GraphIterator, n int, limit int) ([]string, string) {
+	if limit < 400000 {
+		limit = 400000
+	}
 	var out []string
 	for it.Next() {
 		mask, prob := valueMask(it, n)
@@ -107,11 +112,36 @@ func evalSave(sc saveCase, trace []string) *Failure {
 		if k > T {
 			k = T
 		}
-		got, _, prob := advance(orig, n, k)
+		if sc.Early != nil {
+			// an earlier save of the same iterator, discarded: later saves must not be influenced by it
+			e := *sc.Early
+			if e > k {
+				e = k
+			}
+			pre, _, _ := advance(orig, n, e)
+			var junk bytes.Buffer
+			orig.Save(&junk)
+			rest0, _, _ := advance(orig, n, k-e)
+			if sc.K == T+1 && e <= T {
+				// continue to exhaustion below
+			}
+			if !sameStrs(append(pre, rest0...), trace[:k]) {
+				f = mk("nondeterministic-run", "run with an intermediate save differs")
+				return
+			}
+		}
+		var got []string
+		var prob string
+		if sc.Early == nil {
+			got, _, prob = advance(orig, n, k)
+		} else {
+			got = trace[:k]
+		}
 		if prob != "" || !sameStrs(got, trace[:k]) {
 			f = mk("nondeterministic-run", "a second uninterrupted run differs: "+prob)
 			return
 		}
+		_ = got
 		if sc.K == T+1 {
 			if orig.Next() {
 				f = mk("nondeterministic-run", "longer second run")
@@ -212,6 +242,65 @@ func evalSave(sc saveCase, trace []string) *Failure {
 	return f
 }
 
+// c04Deep: n = 9 (274 668 graphs): the positions where the saved state is largest (deepest pending-choice stack),
+// found by saving at every 25th position, plus evenly spread ones; full comparison of the resumed sequence.
+func c04Deep(c *Ctx) {
+	sc := saveCase{N: 9, A: 0, M: 1, Pred: "none", Place: "none"}
+	it := makeIter(sc.cfg(), 0)
+	var trace []string
+	type sized struct{ k, size int }
+	var sizes []sized
+	for k := 0; ; k++ {
+		if k%25 == 0 {
+			var buf bytes.Buffer
+			it.Save(&buf)
+			sizes = append(sizes, sized{k, buf.Len()})
+		}
+		if !it.Next() {
+			break
+		}
+		mask, prob := valueMask(it, 9)
+		if prob != "" {
+			c.Fail(&Failure{Class: "search-save/uninterrupted-run-malformed", What: prob, Kind: "save", Replay: sc})
+			return
+		}
+		trace = append(trace, g6(9, mask))
+	}
+	T := len(trace)
+	if T != 274668 {
+		c.HarnessError("All(9,0,1) yields %d graphs", T)
+		return
+	}
+	sort.Slice(sizes, func(i, j int) bool { return sizes[i].size > sizes[j].size })
+	top, spread := 12, 8
+	if c.Thorough() {
+		top, spread = 120, 60
+	}
+	pos := map[int]bool{}
+	for i := 0; i < top && i < len(sizes); i++ {
+		pos[sizes[i].k] = true
+	}
+	for i := 0; i < spread; i++ {
+		pos[(i*T)/spread+i] = true
+	}
+	var ks []int
+	for k := range pos {
+		ks = append(ks, k)
+	}
+	sort.Ints(ks)
+	c.parFor(int64(len(ks)), 1, func(lo, hi int64) {
+		for _, k := range ks[lo:hi] {
+			s2 := sc
+			s2.K = k
+			c.Check(func() *Failure { return evalSave(s2, trace) })
+			c.States(1)
+			c.Nontrivial(1)
+		}
+	})
+	c.SetCount("n9_positions", int64(len(ks)))
+	c.SetCount("n9_largest_saved_state_bytes", int64(sizes[0].size))
+}
+
 func runC04(c *Ctx) {
 	c.Level = "exploration"
 	c.Rule = "crash-point enumeration: for every configuration (n<=7 (8 thorough, interior positions thinned); (a,m) in {(0,1),(0,2),(1,2),(2,3)}; predicate none / triangle-free as prune / maxdeg<=2 as preprune / claw-free as both) and EVERY save position k in [0,T+1] (T = length of the uninterrupted output; T+1 = after exhaustion): Save twice (bytes equal), Load, then advance loaded and original alternately: both must yield exactly o_{k+1}..o_T in order; a second Load of the same bytes too; chains (save at k, load, advance j, save, load, drain) for every (k,j) with n<=5 (thinned in j for n=6); non-trivial = position with at least one graph before and after it"
@@ -252,6 +341,21 @@ func runC04(c *Ctx) {
 			sc.K = k
 			jobs = append(jobs, job{sc, b.trace})
 		}
+		if b.sc.N <= 5 {
+			// an earlier, discarded save at e, then the save under test at k (every pair; k = T+1 included)
+			for k := 0; k <= T+1; k++ {
+				for e := 0; e <= k && e <= T; e++ {
+					if T > 40 && e%5 != 0 && e != k {
+						continue
+					}
+					sc := b.sc
+					sc.K = k
+					ee := e
+					sc.Early = &ee
+					jobs = append(jobs, job{sc, b.trace})
+				}
+			}
+		}
 		if b.sc.N <= chainN {
 			for k := 0; k <= T; k++ {
 				for j := 0; j <= T-k; j++ {
@@ -282,6 +386,7 @@ func runC04(c *Ctx) {
 	if c.Expired() {
 		c.CapHit("deadline")
 	}
+	c04Deep(c)
 	c.SetCount("configurations", int64(len(bases)))
 	c.SetCount("save_positions_and_chains", int64(len(jobs)))
 	c.Sample("save", saveCase{N: 5, A: 0, M: 2, Pred: "triangle-free", Place: "prune", K: 3})
